@@ -3,6 +3,9 @@
 #include "visa.h"
 #include "cpusim.h"
 #include <sys/wait.h>
+/* the call exactly as an application writes it: through the public header (whatever prototype, macro or inline wrapper it provides) */
+#include "mem_routines.h"
+static int via_public_header(void *p, size_t n) { return isal_zero_detect(p, n); }
 
 typedef int (*fn_zd)(void *, size_t);
 typedef struct { const char *name; fn_zd fn; const char *isa; int ok; long calls; uint64_t resmask, alnmask; long positions; } zsym;
@@ -13,6 +16,7 @@ static zsym syms[] = {
 #define X(s, n, isa) { #s, (fn_zd) ksym_##s, isa },
 	V_ZERODET_LIST(X)
 #undef X
+	{ "isal_zero_detect@mem_routines.h", via_public_header, "disp" },
 };
 #define NSYMS ((int) (sizeof syms / sizeof syms[0]))
 #define BIG (1u << 20)
